@@ -408,6 +408,24 @@ func (x *X) CheckNoLocksHeld(call string) {
 	}
 }
 
+// State describes a thread at a quiescent point: "done", "parked:<label>"
+// (waiting at a scheduling point of the engine) or "native" (durably
+// blocked in a channel operation/select/WaitGroup of the code under test,
+// or - outside quiescent points - running). Meant for Event.Enabled
+// callbacks and monitors, which run on the controller at quiescence.
+func (t *Thread) State(x *X) string {
+	x.mu.Lock()
+	defer x.mu.Unlock()
+	switch {
+	case t.done:
+		return "done"
+	case t.pend != nil:
+		return "parked:" + t.pend.label
+	default:
+		return "native"
+	}
+}
+
 // Steps returns the number of decisions taken so far.
 func (x *X) Steps() int { return len(x.trace) }
 
